@@ -445,17 +445,25 @@ def offsetAt (t : Bytes) (pos : Nat) : Except Err Nat :=
 def sliceOf (t : Bytes) (start stop : Nat) : Except Err Bytes :=
   if start > stop ∨ stop > t.length then .error .slice else .ok ((t.drop start).take (stop - start))
 
-/-- `Tuple.GetField` -/
-def getField (t : Bytes) (i : Nat) : Except Err Field := do
-  let cnt ← tupleCount t
-  if i ≥ cnt then return none
-  let sz := t.length
-  if 2 * cnt > sz then throw .malformed   -- Go: negative `split`, unchecked pointer arithmetic
-  let split := sz - 2 * cnt
-  let stop ← if i < cnt - 1 then offsetAt t (split + i * 2) else pure (split % 65536)
-  let start ← if i > 0 then offsetAt t (split + (i - 1) * 2) else pure 0
-  if start = stop then return none
-  return some (← sliceOf t start stop)
+/-- `Tuple.GetField` (`stop` is read before `start`, as in the Go code) -/
+def getField (t : Bytes) (i : Nat) : Except Err Field :=
+  match tupleCount t with
+  | .error e => .error e
+  | .ok cnt =>
+    if i ≥ cnt then .ok none
+    else if 2 * cnt > t.length then .error .malformed   -- Go: negative `split`, unchecked pointer arithmetic
+    else
+      let split := t.length - 2 * cnt
+      match (if i < cnt - 1 then offsetAt t (split + i * 2) else .ok (split % 65536)) with
+      | .error e => .error e
+      | .ok stop =>
+        match (if i > 0 then offsetAt t (split + (i - 1) * 2) else .ok 0) with
+        | .error e => .error e
+        | .ok start =>
+          if start = stop then .ok none
+          else match sliceOf t start stop with
+            | .error e => .error e
+            | .ok b => .ok (some b)
 
 structure TType where
   enc : Enc
@@ -486,28 +494,38 @@ def descGetField (ts : List TType) (t : Bytes) (i : Nat) : Except Err Field :=
 
 /-- the first loop of `DefaultTupleComparator.Compare` (raw slices `left[start:stop]`) -/
 def compareFast : List TType → List Nat → Nat → Bytes → Bytes → Except Err Ordering
-  | t :: ts, stop :: fs, start, l, r => do
-    let lf ← sliceOf l start stop
-    let rf ← sliceOf r start stop
-    let c ← compareField t.enc (some lf) (some rf)
-    if c ≠ .eq then return c
-    compareFast ts fs stop l r
+  | t :: ts, stop :: fs, start, l, r =>
+    match sliceOf l start stop with
+    | .error e => .error e
+    | .ok lf =>
+      match sliceOf r start stop with
+      | .error e => .error e
+      | .ok rf =>
+        match compareField t.enc (some lf) (some rf) with
+        | .ok .eq => compareFast ts fs stop l r
+        | other => other
   | _, _, _, _, _ => .ok .eq
 
 /-- the second loop: fields `j ≥ off` through `GetField` -/
 def compareRest : List TType → Nat → Bytes → Bytes → Except Err Ordering
   | [], _, _, _ => .ok .eq
-  | t :: ts, j, l, r => do
-    let c ← compareField t.enc (← getField l j) (← getField r j)
-    if c ≠ .eq then return c
-    compareRest ts (j + 1) l r
+  | t :: ts, j, l, r =>
+    match getField l j with
+    | .error e => .error e
+    | .ok lf =>
+      match getField r j with
+      | .error e => .error e
+      | .ok rf =>
+        match compareField t.enc lf rf with
+        | .ok .eq => compareRest ts (j + 1) l r
+        | other => other
 
 /-- `DefaultTupleComparator.Compare` -/
-def compareTuples (ts : List TType) (l r : Bytes) : Except Err Ordering := do
+def compareTuples (ts : List TType) (l r : Bytes) : Except Err Ordering :=
   let fast := makeFixedAccess ts
-  let c ← compareFast ts fast 0 l r
-  if c ≠ .eq then return c
-  compareRest (ts.drop fast.length) fast.length l r
+  match compareFast ts fast 0 l r with
+  | .ok .eq => compareRest (ts.drop fast.length) fast.length l r
+  | other => other
 
 /-! ## TupleBuilder (field vector level; the byte buffer the fields alias is abstracted) -/
 
